@@ -18,7 +18,7 @@ From Coq Require Import List ZArith Bool.
 From ApiFu Require Import Base.Sexp Cost.CostModel Cost.CostSpec Cost.CostProofs.
 From ApiFu Require Val.Values Val.CoerceModel Val.CoerceSpec Val.CoerceProofs Relay.RelayModel.
 From ApiFu Require Import Cost.CostArgs Cost.CostArgsProofs Cost.CostFragments Cost.CostRelay Cost.CostTrace Cost.CostTraceProofs Cost.CostC04Usage Cost.CostC04 Cost.CostProj Cost.CostC04Proj.
-From ApiFu Require Val.BridgeC04Full Vld.TypeInfoPure ExeA.ArgData ExeA.ArgArgs Pipe.CostCompose Cost.CostRealDoc.
+From ApiFu Require Val.BridgeC04Full Vld.TypeInfoPure ExeA.ArgData ExeA.ArgArgs Pipe.CostCompose Cost.CostRealDoc Cost.CostConformU Cost.CostConformDoc.
 From ApiFu Require Vld.ProofsTypeInfoValues.
 From ApiFu Require Vld.Ast Vld.ValidatorModel Vld.Hyps Vld.ProofsCommon Val.BridgeC04 Val.BridgeC04Proofs.
 Import ListNotations.
@@ -678,6 +678,65 @@ Theorem C14_scalars_are_leaves_decidable : forall S,
   CostRealDoc.scalars_leavesb S = true -> CostRealDoc.scalars_are_leaves S.
 Proof. exact CostRealDoc.scalars_leavesb_spec. Qed.
 
+
+(** * Round 7: TYPE CONFORMANCE of every cost call on the real document — the last implication.
+
+    [inputs_agree VS F ES] (Cost/CostConformDoc.v) says what "one schema in two encodings" means for the
+    arguments of the cost rule: no scalar of the validator's schema [VS] swallows list / object
+    literals; its input-object types are those of the executor-side environment [s_inputs ES], field
+    by field (names, translated types, default flags); every input type of [VS] is known there; the
+    arguments of every field have the same names, translated types and the same "has a default" on
+    both sides; the executor-side argument definitions are named once and their defaults are values
+    of their types.  ([Pipe.SchemaAgree.schemas_agree] compares argument names and types but neither
+    default flags nor the fields of input objects, so these are stated here.)
+
+    Then, for every document ACCEPTED by C04's [validate_model repaired] — any number of fields at any
+    depth, inline and named fragments, several operations — and the request C03's composition derives
+    from the annotated document: every argument map a cost function is called with during the walk
+    CONFORMS to the declared argument types.  Together with
+    [C14_accepted_document_calls_reference_coerced]: on real documents behind the validator, cost
+    functions only ever see conforming, reference-coerced arguments.  No [document_bridge], no
+    projection, no per-node premise is left.
+
+    How: every field selection reached by the walk sits at a known site of the annotated document
+    ([sites]: its field definition is TypeInfo's, its arguments are [ti_args] of the raw ones, their
+    values are values of the enclosing definition, the nodes of those values are nodes validateVariables
+    visits); the walk's reachability is validateVariables' ([reached_is_reached]); C04's
+    [vars_fine] makes [usage_errs] empty inside every such value (C04_variable_usages_in_value);
+    validateValues makes [coercion] silent on it; [C14_usage_real] turns the two into C05's
+    [usage_ok (l_of_vld v)] at the executor-side argument type; [vardefs_loop] gives distinct, typed
+    variable definitions. *)
+Theorem C14_usage_real : forall pi S E,
+  CostRealDoc.scalars_are_leaves S ->
+  (forall n defs, Ast.raw_body S n = Some (Ast.TInput defs) ->
+     exists fields h, Values.aget n E = Some (Values.TInput fields h) /\
+                      defs = map (fun f : Values.name * Values.in_def => (fst f, BridgeC04.tr_indef (snd f))) fields) ->
+  forall defs vars',
+  Forall2 CostConformU.vrel defs vars' ->
+  (forall d, In d defs -> CoerceModel.type_known E (Values.vd_type d) = true) ->
+  forall v t al ld,
+  ValidatorModel.coercion ValidatorModel.repaired pi S v (BridgeC04.tr_sty t) al = ValidatorModel.VR [] ->
+  nil_errs (ProofsTypeInfoValues.usage_errs true S vars' false (Some (BridgeC04.tr_sty t)) ld v) = true ->
+  CoerceModel.usage_ok CoerceModel.all_fixed E defs (CostCompose.l_of_vld v) (Some t) ld = true.
+Proof. exact CostConformU.usage_real. Qed.
+
+Theorem C14_accepted_document_calls_conform :
+  forall pi VS F ES D opname raw o skip_zero fuel dc ctx0 max,
+  ProofsCommon.order_ok pi ->
+  CostConformDoc.inputs_agree VS F ES ->
+  ValidatorModel.validate_model ValidatorModel.repaired pi VS F D = Ast.Done [] ->
+  let Adoc := TypeInfoPure.pti_doc (ValidatorModel.q_unwrap_obj ValidatorModel.repaired) VS F D in
+  let E := ArgData.s_inputs ES in
+  let dt := ArgArgs.dt_oracle ES in
+  CoerceSpec.env_ok E = true ->
+  (forall p, In p raw -> CoerceSpec.jval_ok (snd p) = true) ->
+  chosen_op unit (CostCompose.c_ops ES Adoc) opname = Some o ->
+  (forall def dflt, In def (ao_vardefs o) -> Values.vd_default def = Some dflt -> CoerceModel.lit_vars dflt = []) ->
+  forall c, In c (snd (validate_cost_trace unit E dt skip_zero fuel dc ctx0
+                         (CostCompose.c_ops ES Adoc) (CostCompose.c_frs ES Adoc) opname raw max)) ->
+    CoerceSpec.args_conform_b E (af_argdefs (c_field c)) (c_args c) = true.
+Proof. exact CostConformDoc.accepted_document_calls_conform. Qed.
+
 Print Assumptions C14_checked_mul_spec.
 Print Assumptions C14_checked_add_spec.
 Print Assumptions C14_select_op_spec.
@@ -723,3 +782,5 @@ Print Assumptions C14_accepted_document_argument_names_unique.
 Print Assumptions C14_coercion_silent_fields_named_once.
 Print Assumptions C14_accepted_document_calls_reference_coerced.
 Print Assumptions C14_scalars_are_leaves_decidable.
+Print Assumptions C14_usage_real.
+Print Assumptions C14_accepted_document_calls_conform.
